@@ -215,6 +215,30 @@ def fresh_outputs(jobs):
     return json.loads(r.stdout)
 
 
+def _described(spec):
+    """(element, depth at which its description is printed)"""
+    for t in spec["types"].values():
+        yield t, 0
+        for m in (t.get("fields") or []) + (t.get("values") or []):
+            yield m, 1
+            for a in m.get("args", []) or []:
+                yield a, 2
+    for d in spec.get("directives", []):
+        yield d, 0
+        for a in d.get("args", []) or []:
+            yield a, 1
+
+
+def _rewrapped(spec, opts):
+    """does the printer re-wrap a description line under these options?  (outside the property's domain)"""
+    w = opts["indent"] if isinstance(opts["indent"], int) else len(opts["indent"])
+    for x, depth in _described(spec):
+        for line in (x.get("desc") or "").split("\n"):
+            if len(line) > 120 - w * depth:
+                return True
+    return False
+
+
 def run_history(case, ctx=None):
     vios = []
     schemas = []
@@ -227,6 +251,11 @@ def run_history(case, ctx=None):
     for si, oi in case["calls"]:
         spec, mode, schema, eff = schemas[si]
         opts = OPTION_SETS[oi]
+        if opts["include_descriptions"] and _rewrapped(eff, opts):
+            if ctx is not None:
+                ctx.unspec()
+                ctx.event("description-line-longer-than-the-line-budget")
+            continue
         try:
             text = print_schema(schema, opts)
         except Exception as e:  # noqa
@@ -273,6 +302,13 @@ def specs_for_printing(draw):
             for a in m.get("args", []) or []:
                 if draw(st.integers(0, 5)) == 0:
                     a["applied"] = ["@cd"]
+    if draw(st.integers(0, 2)) == 0:
+        # description lines that fill the printer's line budget (120 - indent width * depth) exactly for one indent width
+        els = [(x, d) for x, d in _described(spec) if x.get("name") not in ("cd", "other")]
+        for x, depth in draw(st.lists(st.sampled_from(els), min_size=1, max_size=3)):
+            n = 120 - draw(st.sampled_from([0, 1, 2, 3, 4])) * depth - draw(st.sampled_from([0, 0, 0, 1]))
+            first = draw(st.sampled_from([" ", "  ", "", "\t"]))
+            x["desc"] = first + "w" * (n - len(first)) + draw(st.sampled_from(["", "", "\nsecond line"]))
     # a non-root type called Mutation
     if spec.get("mutation") is None and "Mutation" not in spec["types"] and draw(st.integers(0, 3)) == 0:
         spec["types"]["Mutation"] = {"kind": "object", "name": "Mutation", "interfaces": [], "desc": None,
